@@ -471,3 +471,55 @@ TF["enable_grad"] = lambda: NoGrad()
 # functional
 FN = {}
 FN["pad"] = lambda t, pad, mode="constant", value=0: ops.pad(t, pad, mode, value if value is not None else 0)
+
+
+# ---- repetition
+def _repeat_interleave(t, repeats, dim=None):
+    if T(repeats):
+        raise Unsupported("repeat_interleave with tensor repeats")
+    if dim is None:
+        if t.rank != 1:
+            t = ops.flatten(t)
+        dim = 0
+    d = norm_dim(dim, t.rank)
+    s_ = t.snap()
+    shape = list(t.shape)
+    shape[d] = simp_int(ops.scalar_binop("mul", t.shape[d], repeats, wf=False))
+
+    def elem(I):
+        J = list(I)
+        J[d] = simp_int(ops.scalar_binop("floordiv", I[d], repeats, wf=False))
+        return s_(tuple(J))
+
+    return mk(tuple(shape), t.dtype, elem)
+
+
+TM["repeat_interleave"] = _repeat_interleave
+TF["repeat_interleave"] = _repeat_interleave
+
+
+def _repeat(t, *sizes):
+    sizes = ops._shape_args(sizes)
+    if len(sizes) < t.rank:
+        raise Unsupported("repeat with fewer dims")
+    off = len(sizes) - t.rank
+    tshape = (1,) * off + tuple(t.shape)
+    shape = tuple(simp_int(ops.scalar_binop("mul", a, b, wf=False)) for a, b in zip(tshape, sizes))
+    s_ = t.snap()
+
+    def elem(I):
+        J = []
+        for k in range(off, len(sizes)):
+            n = tshape[k]
+            if isinstance(sizes[k], int) and sizes[k] == 1:
+                J.append(I[k])
+            elif isinstance(n, int) and n == 1:
+                J.append(0)
+            else:
+                J.append(simp_int(ops.scalar_binop("mod", I[k], n, wf=False)))
+        return s_(tuple(J))
+
+    return mk(shape, t.dtype, elem)
+
+
+TM["repeat"] = _repeat
